@@ -24,7 +24,7 @@ RULE = (
     "Exhaustive layer: histories = sequences of candidates (value in {0,1,2}, tag in {none,a,b}) of length 0..4 (quick) / 0..5 (thorough); each "
     "history x every composition into batches x MergePolicy {MIN,MAX} x RetentionPolicy {NONE,ANY,ALL} x target {standalone Entry, Table(List), "
     "Table(Dict), Table(List,Dict), Table(Dict,Dict,List)} through proxy.update(*batch), and through table[key] = candidate for one-candidate "
-    "batches.  After every batch: value() == min/max of offered values (+-inf if none); infos() within the tags of optimal tagged candidates: all "
+    "batches.  A handle obtained (and read) before the first write is kept and re-read after every batch, and in a second pass every other batch is written through it.  After every batch: value() == min/max of offered values (+-inf if none); infos() within the tags of optimal tagged candidates: all "
     "of them (ALL), exactly one if any exists (ANY), none (NONE); len/iter/info()/is_infinite() consistent; untouched cells read +-inf, no tags, "
     "len 0.  At the end the entry is combined with entries built from two fixed histories and a random one: result == model optimum over the "
     "product of retained tags.  Random layer: Hypothesis histories up to 40 candidates over values -5..5 and 4 tags.  evaluations = histories x "
@@ -162,20 +162,25 @@ def split(hist, cuts):
     return batches
 
 
-def run_history(hist, cuts, merge, retention, target, use_set, others, comb):
+def run_history(hist, cuts, merge, retention, target, use_set, others, comb, held_writes=False):
     from superrec2.utils.dynamic_programming import Candidate, Entry, MergePolicy, RetentionPolicy
 
     get, set_one, untouched = make_target(target, merge, retention)
     offered = []
-    check_entry(get(), offered, merge, retention, "initial")
-    for batch in split(hist, cuts):
+    # a handle taken (and read) before the first write must keep showing the cell, whichever path writes
+    held = get()
+    check_entry(held, offered, merge, retention, "initial")
+    for k, batch in enumerate(split(hist, cuts)):
         cands = [Candidate(v, t) for v, t in batch]
         if use_set and set_one is not None and len(cands) == 1:
             set_one(cands[0])
+        elif held_writes and k % 2 == 1:
+            held.update(*cands)
         else:
             get().update(*cands)
         offered.extend((v, t) for v, t in batch)
         check_entry(get(), offered, merge, retention, f"after {len(offered)} candidates")
+        check_entry(held, offered, merge, retention, f"held handle after {len(offered)} candidates")
         if untouched is not None:
             check_entry(untouched(), [], merge, retention, "untouched cell")
     # combine
@@ -216,6 +221,9 @@ def check(case):
                     for target in TARGETS:
                         run_history(hist, cuts, merge, retention, target, False, FIXED_OTHERS, "sum")
                         evals += 1
+                        if target != "entry" and len(hist) >= 2 and (merge, retention) in (("MIN", "ALL"), ("MAX", "ANY")):
+                            run_history(hist, cuts, merge, retention, target, False, (), "sum", held_writes=True)
+                            evals += 1
                         if target != "entry" and all(cuts):
                             run_history(hist, cuts, merge, retention, target, True, (), "sum")
                             evals += 1
@@ -223,7 +231,8 @@ def check(case):
         others = FIXED_OTHERS + ([tuple(c) for c in case["other"]],)
         run_history(hist, case["cuts"], case["merge"], case["retention"], case["target"], False, others, case["comb"])
         run_history(hist, case["cuts"], case["merge"], case["retention"], case["target"], True, others, case["comb"])
-        evals = 2
+        run_history(hist, case["cuts"], case["merge"], case["retention"], case["target"], False, (), case["comb"], held_writes=True)
+        evals = 3
     labels = [f"len={min(len(hist), 10)}{'+' if len(hist) >= 10 else ''}"]
     if improving:
         labels.append("improving_after_tagged")
